@@ -350,6 +350,7 @@ def traced(spec: dict) -> dict:
     sys.stdout = tee
     err = None
     r = None
+    before_threads = set(threading.enumerate())
     swi = sys.getswitchinterval()
     if spec.get('switchinterval'):
         sys.setswitchinterval(spec['switchinterval'])      # thread switches at (almost) every bytecode boundary
@@ -360,6 +361,9 @@ def traced(spec: dict) -> dict:
         err = f'{type(e).__name__}: {e}'
     finally:
         sys.setswitchinterval(swi)
+        # threads the script left behind that are not traced (thread tracing off): the child process would wait for them at exit,
+        # and what they print still goes to its standard output
+        _join_new_threads(before_threads)
         sys.stdout = old
         qo.put(None)
         t.join(10)
